@@ -237,6 +237,22 @@ P["C07"] = {
               "require_reach": ["c07:pair"], "bounds": "all 33 sibling pairs"}]}
 
 
+P["C18"] = {
+    "design_ref": "DESIGN.md §8 C18, Appendix C", "assumptions": TIERB_ASSUME + [
+        "reference = the JSON operator tree grouped EXACTLY AS NESTED (n-ary operators fold to the left), generated by tools/gen_c18.py",
+        "JSON text -> tree is encoding/json (native, concrete); the translator, the GRL parser and the builder run natively on each generated rule; evaluation of the built rule runs from SSA on symbolic facts"],
+    "bounds": "every ordered pair (outer operator, nested operator) of the 15 operators with the nested object as left and as right operand over every well-typed int/bool/float operand triple (428 cases), n-ary forms, plain-string / obj-const-wrapped notations, constants of each kind, depth 3, both 'not' forms; 24 malformed / well-formed rule shapes (unknown operator, wrong arity, missing name/when/then, wrong operand types); string constants: the emitted literal of every 1-byte (quick) / 2-byte (thorough) string decodes to the same bytes",
+    "outside": "trees outside the family; number formatting for all floats; string constants longer than 2 bytes; JSON text that is not well-formed JSON (encoding/json's business)",
+    "runs": [{"name": "c18-family", "pkgdir": "zztier", "harness": TIERC_H, "entry": "VerifC18All", "tiers": QT, "templates": ["c18_%d.recipe.json" % t for t in range(12)],
+              "require_reach": ["c18:case"], "witnesses": 12, "bounds": "the whole generated family (442 JSON rules)"},
+             {"name": "c18-malformed", "pkgdir": "pkg", "harness": [["pkg", "harness/pkg"]], "entry": "VerifC18Malformed", "tiers": QT, "require_reach": ["c18:malformed-case"],
+              "bounds": "24 rule shapes through pkg.ParseRule from SSA"},
+             {"name": "quote-roundtrip-1", "pkgdir": "antlr", "harness": [["antlr", "harness/antlr"], ["pkg", "harness/pkg"]], "entry": "VerifQuoteRoundTrip", "args": [1], "tiers": QT,
+              "init": ["strconv", "unicode/utf8"], "require_reach": ["c18:quoted"], "quick": {"max_values": 300}, "thorough": {"max_values": 300}, "bounds": "every 1-byte string constant"},
+             {"name": "quote-roundtrip-2", "pkgdir": "antlr", "harness": [["antlr", "harness/antlr"], ["pkg", "harness/pkg"]], "entry": "VerifQuoteRoundTrip", "args": [2], "tiers": T,
+              "init": ["strconv", "unicode/utf8"], "require_reach": ["c18:quoted"], "thorough": {"max_values": 300}, "bounds": "every 2-byte string constant"}]}
+
+
 def c05(t, tiers):
     return {"name": "c05-family-%d" % t, "pkgdir": "zztier", "harness": TIERC_H, "entry": "VerifC05", "args": [t], "tiers": tiers, "templates": ["c05_%d.grl" % t],
             "require_reach": ["c05:case"], "bounds": "generated family part %d (30 expressions): evaluated through Sink = <expr> and as a rule condition on symbolic operands" % t}
@@ -248,7 +264,12 @@ P["C05"] = {
         "side conditions of the property: divisors non-zero, |operands| < 1000 (no overflow), no NaN"],
     "bounds": "every ordered pair of the 15 binary operators 'x op1 y op2 z' over every operand-kind triple (int/bool/float) that is well-typed (321 cases), 19 notation cases (parentheses overriding / redundant, comments, literal notations decimal/hex/octal/exponent/hex-float, keyword case, uint8 operand), 24 depth-3 trees, 5 negation forms; method-call argument order and variadics (template b_args); string == and + on concrete strings; each as an assignment to a typed sink and (bool) as a rule condition; operands symbolic",
     "outside": "the lexer is not encoded: literal notations, whitespace and comments are exercised concretely, once each, not solver-quantified; built-in string/array/map functions; string contents; expression depth > 3; operand values beyond |v| < 1000",
-    "runs": [c05(t, QT) for t in range(13)] + [tierB("values", 3, 0, QT, require_reach=["tierB:execute-returned", "tierB:args-fired"])]}
+    "runs": [{"name": "c05-family", "pkgdir": "zztier", "harness": TIERC_H, "entry": "VerifC05All", "tiers": QT, "templates": ["c05_%d.grl" % t for t in range(13)],
+              "require_reach": ["c05:case"], "witnesses": 12, "bounds": "the whole generated family (367 expressions): evaluated through Sink = <expr> and as a rule condition on symbolic operands"},
+             tierB("values", 3, 0, QT, require_reach=["tierB:execute-returned", "tierB:args-fired"]),
+             {"name": "quote-roundtrip-1", "pkgdir": "antlr", "harness": [["antlr", "harness/antlr"], ["pkg", "harness/pkg"]], "entry": "VerifQuoteRoundTrip", "args": [1], "tiers": QT,
+              "init": ["strconv", "unicode/utf8"], "require_reach": ["c18:quoted"], "extra_label_prefixes": ["C18:string-constant"], "quick": {"max_values": 300}, "thorough": {"max_values": 300},
+              "bounds": "string literal decoding (unquoteString) of the quoted form of every 1-byte string"}]}
 
 json.dump({"properties": P}, open(os.path.join(V, "checks.json"), "w"), indent=1)
 print("properties:", sorted(P))
